@@ -373,6 +373,12 @@ func interfere() {
 		_, _ = psatoken.EncodeClaimsToJSON(c)
 		_, _ = psatoken.ValidateAndEncodeClaimsToJSON(c)
 	}
+	// other Evidence objects sign, with two different algorithms
+	for i, alg := range []int64{-8, -7} { // EdDSA, ES256
+		ev := &psatoken.Evidence{Claims: interferePool[i%len(interferePool)]}
+		_, _ = ev.ValidateAndSign(keyFor(alg, 6).Signer())
+		_, _ = ev.Sign(keyFor(alg, 6).Signer())
+	}
 }
 
 // otherTraffic: interfere() plus decodes (successful and failing) of unrelated
